@@ -459,6 +459,11 @@ def nfa(
                 connect(compile(expr["expr"], cur), next)
                 cur = next
             if expr["max"] == -1:
+                if cur == from_:
+                    # `from_` may have other edges (alternatives of a choice);
+                    # loop on a node of our own, as "star" does
+                    cur = node()
+                    edge(from_, cur)
                 connect(compile(expr["expr"], cur), cur)
             else:
                 for _i in range(expr["min"], expr["max"]):
